@@ -444,11 +444,15 @@ impl LanguageIdentifier {
             }
             (Some(lang), _) if layout_table::LANGS_CHARACTER_DIRECTION_RTL.contains(&lang) => {
                 #[cfg(feature = "likelysubtags")]
-                if let Some((_, Some(script), _)) =
-                    likelysubtags::maximize(self.language, None, self.region)
-                {
-                    if layout_table::SCRIPTS_CHARACTER_DIRECTION_LTR.contains(&script.into()) {
-                        return CharacterDirection::LTR;
+                if self.script.is_none() {
+                    // only a script-less identifier is refined by its likely script;
+                    // an explicit script is never overridden
+                    if let Some((_, Some(script), _)) =
+                        likelysubtags::maximize(self.language, None, self.region)
+                    {
+                        if layout_table::SCRIPTS_CHARACTER_DIRECTION_LTR.contains(&script.into()) {
+                            return CharacterDirection::LTR;
+                        }
                     }
                 }
                 CharacterDirection::RTL
